@@ -182,6 +182,7 @@ fn encode<D: Disease, const NAME: usize, const TERMS: usize, const L: usize>() {
         assert!(be(&out, 16 + NAME) == lo && be(&out, 20 + NAME) == hi, "term ids ascending, big-endian");
     }
     kani::cover!(true, "encoded");
+    kani::cover!(NAME > 1 && nb[0] >= 0x80, "opt: multi-byte character in the name");
     core::mem::forget(out);
 }
 
@@ -197,9 +198,40 @@ macro_rules! enc {
 enc!(c07_omim_encode_n0_t0, OmimDisease, 0, 0);
 enc!(c07_omim_encode_n1_t1, OmimDisease, 1, 1);
 enc!(c07_omim_encode_n3_t2, OmimDisease, 3, 2);
+enc!(c07_omim_encode_n2_t0, OmimDisease, 2, 0);
 enc!(c07_orpha_encode_n0_t0, OrphaDisease, 0, 0);
 enc!(c07_orpha_encode_n1_t1, OrphaDisease, 1, 1);
 enc!(c07_orpha_encode_n3_t2, OrphaDisease, 3, 2);
+enc!(c07_orpha_encode_n2_t0, OrphaDisease, 2, 0);
+
+/// a fixed multi-byte name ("é" = C3 A9) with symbolic id and term: the length fields count BYTES.
+/// (With the name bytes symbolic a char-counting encoder is intractable for CBMC; this instance keeps
+/// the name concrete so that such a change yields a counterexample instead of a timeout.)
+fn encode_multibyte_name<D: Disease>() {
+    let id: u32 = kani::any();
+    let t: u32 = kani::any();
+    let mut d = D::new(D::AnnoID::from(id), "\u{e9}");
+    d.add_term(t);
+    let out = d.as_bytes();
+    assert!(out.len() == 16 + 2 + 4, "record length counts name bytes");
+    assert!(be(&out, 0) == 22, "total length field");
+    assert!(be(&out, 4) == id);
+    assert!(be(&out, 8) == 2, "name length field counts bytes, not characters");
+    assert!(out[12] == 0xC3 && out[13] == 0xA9);
+    assert!(be(&out, 14) == 1 && be(&out, 18) == t);
+    kani::cover!(id > 0xFFFFFF, "id with the high byte set");
+    core::mem::forget(out);
+}
+#[kani::proof]
+#[kani::unwind(8)]
+fn c07_omim_encode_multibyte_name() {
+    encode_multibyte_name::<OmimDisease>();
+}
+#[kani::proof]
+#[kani::unwind(8)]
+fn c07_orpha_encode_multibyte_name() {
+    encode_multibyte_name::<OrphaDisease>();
+}
 
 #[kani::proof]
 #[kani::unwind(8)]
